@@ -110,4 +110,9 @@ CONFIG = {
         "thorough": {'checks': 800000, 'shards': 14, 'timeout': 3600, 'shrinktime': '60s'},
         "assumptions": ['method values, call expressions and slice expressions are not used as isset arguments', 'piped form: the piped expression itself must evaluate without error'],
     },
+    'C14': {
+        "quick": {'checks': 20000, 'shards': 4, 'timeout': 900},
+        "thorough": {'checks': 800000, 'shards': 14, 'timeout': 3600, 'shrinktime': '60s'},
+        "assumptions": ['conversions whose Go meaning surprises (integer -> string) are not generated', 'dump is not checked (development aid, output unspecified)'],
+    },
 }
